@@ -179,6 +179,39 @@ def mhaForward (th e : κ → κ) (m : MHA κ) (q : List κ) (ks vs : List (List
   mhaCore th e m q ks vs
     (fun h => mask.map (fun mm => (unsqueezeLast mm).map (fun r => bget r h false)))
 
+/-! ### Per-head stand-ins for `exp` (what a max-subtracting softmax computes)
+
+`torch.softmax` subtracts the largest score of each softmax column before exponentiating; with
+strongly negative scores the plain `exp` underflows in floating point while the shifted one
+does not.  `mhaCoreH` / `mhaForwardH` are `mhaCore` / `mhaForward` with a separate function
+`eh h` in place of `exp` for head `h`; the driver runs them with `eh h x = exp (x - c_h)`,
+`c_h` the largest kept score of head `h` (`mhaHeadScores`).  `C20_shift_invariant` /
+`C20_multihead_shift` prove that this is the same function of the inputs whenever
+`eh h x = e x * g_h` with `g_h ≠ 0` (here `g_h = exp (-c_h)`). -/
+
+/-- The scores head `h` computes before masking. -/
+def mhaHeadScores (th : κ → κ) (m : MHA κ) (q : List κ) (ks : List (List κ)) (h : Nat) : List κ :=
+  let qh := unflatten m.numHeads m.dq (linear m.WQ m.bQ q)
+  let kh := ks.map (fun k => unflatten m.numHeads m.dk (linear m.WK m.bK k))
+  (kh.map (·.getD h [])).map (score th m.inner (qh.getD h []))
+
+/-- `mhaCore` with head `h` using `eh h` in place of `exp`. -/
+def mhaCoreH (th : κ → κ) (eh : Nat → κ → κ) (m : MHA κ) (q : List κ) (ks vs : List (List κ))
+    (hm : Nat → Option (List Bool)) : List κ :=
+  let qh := unflatten m.numHeads m.dq (linear m.WQ m.bQ q)
+  let kh := ks.map (fun k => unflatten m.numHeads m.dk (linear m.WK m.bK k))
+  let vh := vs.map (fun v => unflatten m.numHeads m.dv (linear m.WV m.bV v))
+  let heads := (List.range m.numHeads).map (fun h =>
+    attend th (eh h) m.inner m.dv (qh.getD h []) (kh.map (·.getD h [])) (vh.map (·.getD h []))
+      (hm h))
+  linear m.WC m.bC heads.flatten
+
+/-- `mhaForward` with head `h` using `eh h` in place of `exp`. -/
+def mhaForwardH (th : κ → κ) (eh : Nat → κ → κ) (m : MHA κ) (q : List κ)
+    (ks vs : List (List κ)) (mask : Option (List Bool)) : List κ :=
+  mhaCoreH th eh m q ks vs
+    (fun h => mask.map (fun mm => (unsqueezeLast mm).map (fun r => bget r h false)))
+
 /-! ### The mask axis at batch level (layout of the class docstring: `dim = 0`, query
 `(B, Q)`, key `(T, B, K)`, value `(T, B, V)`, mask `(T, B)`; head tensors `(T, B, H, d)`,
 scores `(T, B, H)`) -/
